@@ -151,7 +151,8 @@ def generate(repo):
         raise ExtractError('FileSystemChain._get_file: not recognised')
     cwalk = _u(_meth(C, 'walk_folder_repeat'))
     if "full_folder = os.path.join(prefix, folder).replace('\\\\', '/')" not in cwalk \
-            or "os.path.relpath(file.path, prefix).replace('\\\\', '/')" not in cwalk:
+            or ("os.path.relpath(file.path, prefix).replace('\\\\', '/')" not in cwalk
+                and "os.path.relpath(file.path, prefix.replace('\\\\', '/')).replace('\\\\', '/')" not in cwalk):
         raise ExtractError('FileSystemChain.walk_folder_repeat: not recognised')
     cded = _u(_meth(C, 'walk_folder'))
     if 'folded = file.path.casefold()' not in cded or 'if folded in done:\n            continue' not in cded:
